@@ -476,3 +476,25 @@ pub fn ep_capture_position(rng: &mut Rng) -> Option<Pos> {
     }
     None
 }
+
+/// Extends a game by piece shuffles (a reversible piece move and its way back, for both
+/// sides) until it has `target` plies or no such move exists. Returns the moves added and
+/// the final position (equal to `start` when whole cycles were added).
+pub fn shuffle_history(start: &Pos, target: usize) -> (Vec<RMove>, Pos) {
+    let mut pos = start.clone();
+    let mut ms: Vec<RMove> = vec![];
+    while ms.len() < target {
+        let rev = |p: &Pos| -> Option<RMove> { p.legal_moves().into_iter().find(|m| m.flags == 0 && m.promo == 0 && kind(p.sq[m.from as usize]) != PAWN && kind(p.sq[m.from as usize]) != KING) };
+        let Some(a) = rev(&pos) else { break };
+        let p1 = pos.make(&a);
+        let Some(b) = rev(&p1) else { break };
+        let p2 = p1.make(&b);
+        let (a2, b2) = (RMove { from: a.to, to: a.from, promo: 0, flags: 0 }, RMove { from: b.to, to: b.from, promo: 0, flags: 0 });
+        let Some(a2) = p2.find_uci(&a2.uci()) else { break };
+        let p3 = p2.make(&a2);
+        let Some(b2) = p3.find_uci(&b2.uci()) else { break };
+        pos = p3.make(&b2);
+        ms.extend([a, b, a2, b2]);
+    }
+    (ms, pos)
+}
